@@ -211,7 +211,7 @@ CHECKS.update({
                 "file, a stale writer rolls over before appending (fault-free model); and the restart half of the property for "
                 "set/delete/reopen - what a failed operation leaves on disk is a crash image of its trace, and every crash image "
                 "recovers all earlier operations and the failed one entirely or not (from C03); a failed unlink in the merge's cleanup "
-                "leaves a statistics row for every file on disk (repaired order; pinned order refuted). For the RUNNING process: after a "
+                "leaves a statistics row for every file on disk (repaired order; pinned order refuted), and wherever rows cover files every later selection is closed downwards over the files that hold records, no engine invariant assumed (C20_rows_make_selection_closed). For the RUNNING process: after a "
                 "put or delete whose append failed (or whose replacement of the active file failed) every later answer of every "
                 "script is the map's answer with the failed operation not applied; the record that may still sit whole in the write "
                 "buffer is dropped by the next put, delete or merge and written out by a clean close, after which the operation has "
